@@ -9,6 +9,7 @@ CONSTANTS
   MAXCELLS = 4
   FIXED_CREATE = TRUE
   COMMIT_FIRST = FALSE
+  MAY_MOVE = TRUE
   CRASHES = 2
 INVARIANT TypeOK
 INVARIANT DurableInv
